@@ -7,13 +7,13 @@ package h2
 // ---- queued frames: flow-control size per implementation ----
 
 //@ func (*queuedDataFrame).flowControlSize
-//@ property C09
+//@ property C09 C12
 //@ requires f != nil
 //@ pure
 //@ ensures result == len(f.data) && result >= 0
 
 //@ func (*queuedHeaderFrame).flowControlSize, (*queuedPushPromiseFrame).flowControlSize, (*queuedPriorityFrame).flowControlSize, (*queuedRSTStreamFrame).flowControlSize
-//@ property C09
+//@ property C09 C12
 //@ pure
 //@ ensures result == 0
 
@@ -23,7 +23,7 @@ package h2
 //@ pred bufWF(w *outputBuffer) = listWF(w.queue) && forall i int :: qlo(w.queue) <= i && i < qhi(w.queue) ==> qelem(w.queue, i).Value is queuedFrame
 
 //@ func (*outputBuffer).enqueue
-//@ property C09 C10
+//@ property C09 C10 C12
 //@ requires w != nil && f != nil && bufWF(w)
 //@ modifies qhi(w.queue), qelem(w.queue, qhi(w.queue))
 //@ ensures bufWF(w)
@@ -37,7 +37,7 @@ package h2
 //  - FIFO: exactly the frames at the old head positions were sent, in order;
 //  - nothing stranded: on return the queue is empty or its head does not fit a window.
 //@ func (*outputBuffer).emitEligibleFrames
-//@ property C09 C10
+//@ property C09 C10 C12
 //@ requires w != nil && connectionWindowSize != nil && bufWF(w)
 //@ modifies w.windowSize, *connectionWindowSize, qlo(w.queue), nsent(output), outseq, sentAll(output)
 //@ ensures bufWF(w)
@@ -72,7 +72,7 @@ package h2
 //@ pred quiescent(r *relay) = forall k uint32 :: k in r.outputBuffers ==> blocked(r.outputBuffers[k], r.connectionWindowSize)
 
 //@ func (*relay).outputBuffer
-//@ property C09 C10
+//@ property C09 C10 C12
 //@ requires r != nil && relayWF(r)
 //@ modifies r.outputBuffers[*]
 //@ ensures result != nil && streamID in r.outputBuffers && r.outputBuffers[streamID] == result
@@ -88,7 +88,7 @@ package h2
 // behind (quiescent), the connection window is debited by exactly what was
 // sent, nothing flow-controlled is sent beyond it.
 //@ func (*relay).sendQueuedFramesUnderWindowSize
-//@ property C09 C10
+//@ property C09 C10 C12
 //@ requires r != nil && relayWF(r)
 //@ modifies outputBuffer.windowSize, r.connectionWindowSize, qlo, nsent(r.output), outseq, sentAll(r.output)
 //@ ensures relayWF(r) && quiescent(r)
@@ -108,7 +108,7 @@ package h2
 
 // Enqueue one frame on its stream and emit what the windows permit.
 //@ func (*relay).enqueueFrame
-//@ property C09 C10
+//@ property C09 C10 C12
 //@ ghostset lastEnq(r) := f
 //@ requires r != nil && f != nil && relayWF(r) && quiescent(r)
 //@ modifies r.outputBuffers[*], outputBuffer.windowSize, r.connectionWindowSize, qlo, qhi, qelem, nsent(r.output), outseq, sentAll(r.output)
@@ -121,7 +121,7 @@ package h2
 // increment (stream 0 = the connection window), every frame that became
 // eligible is sent and debited, nothing is sent beyond the credit.
 //@ func (*relay).updateWindow
-//@ property C09 C10
+//@ property C09 C10 C12
 //@ requires r != nil && f != nil && relayWF(r) && relayInj(r) && quiescent(r)
 //@ modifies r.outputBuffers[*], outputBuffer.windowSize, r.connectionWindowSize, qlo, nsent(r.output), outseq, sentAll(r.output)
 //@ ensures relayWF(r) && quiescent(r)
@@ -138,7 +138,7 @@ package h2
 // moves by the same delta (possibly below zero), the connection window does
 // not, new streams start at the new value.
 //@ func (*relay).updateInitialWindowSize
-//@ property C09 C10
+//@ property C09 C10 C12
 //@ requires r != nil && relayWF(r) && relayInj(r)
 //@ modifies r.initialWindowSize, outputBuffer.windowSize, r.connectionWindowSize, qlo, nsent(r.output), outseq, sentAll(r.output)
 //@ ensures r.initialWindowSize == v
@@ -164,7 +164,7 @@ package h2
 // bytes, every continuation at most continuationMax; each chunk carries the
 // next bytes of data, in order, up to the end.
 //@ func splitIntoChunks
-//@ property C09 C10
+//@ property C09 C10 C12
 //@ requires firstChunkMax >= 0 && continuationMax >= 1
 //@ modifies elems(byte), elems([]byte)
 //@ ensures len(result) >= 1 && len(result[0]) <= firstChunkMax
@@ -185,7 +185,7 @@ package h2
 //@ pred frameSizeOK(r *relay) = r.maxFrameSize >= 16384 && r.maxFrameSize <= 16777215
 
 //@ func (*relay).encodeFull
-//@ property C10
+//@ property C10 C12
 //@ requires r != nil && r.encoder != nil && r.enableDebugLogs != nil
 //@ modifies pkg(hpack), pkg(bytes), elems(byte), sbStr
 
@@ -198,7 +198,7 @@ package h2
 // the fragments carry the input bytes in order, each exactly once; END_STREAM
 // is on the last fragment only, and only if the input ended the stream.
 //@ func (*relay).data
-//@ property C09 C10
+//@ property C09 C10 C12
 //@ requires r != nil && relayWF(r) && quiescent(r) && frameSizeOK(r) && len(data) < 4294967296
 //@ modifies r.outputBuffers[*], outputBuffer.windowSize, r.connectionWindowSize, qlo, qhi, qelem, nsent(r.output), outseq, sentAll(r.output), elems(byte)
 //@ ensures relayWF(r) && quiescent(r)
@@ -228,7 +228,7 @@ package h2
 // and priority; first fragment (+5 priority octets) and every continuation fit
 // the peer's max frame size.
 //@ func (*relay).header
-//@ property C09 C10
+//@ property C09 C10 C12
 //@ requires r != nil && relayWF(r) && quiescent(r) && frameSizeOK(r) && r.encoder != nil && r.enableDebugLogs != nil
 //@ modifies pkg(hpack), pkg(bytes), elems(byte), sbStr, elems([]byte), r.outputBuffers[*], outputBuffer.windowSize, r.connectionWindowSize, qlo, qhi, qelem, nsent(r.output), outseq, sentAll(r.output), lastEnq(r)
 //@ ensures relayWF(r) && quiescent(r)
@@ -238,7 +238,7 @@ package h2
 //@ ensures err == nil ==> forall i int :: 1 <= i && i < len(lastEnq(r).(*queuedHeaderFrame).chunks) ==> len(lastEnq(r).(*queuedHeaderFrame).chunks[i]) <= r.maxFrameSize
 
 //@ func (*relay).pushPromise
-//@ property C09 C10
+//@ property C09 C10 C12
 //@ requires r != nil && relayWF(r) && quiescent(r) && frameSizeOK(r) && r.encoder != nil && r.enableDebugLogs != nil
 //@ modifies pkg(hpack), pkg(bytes), elems(byte), sbStr, elems([]byte), r.outputBuffers[*], outputBuffer.windowSize, r.connectionWindowSize, qlo, qhi, qelem, nsent(r.output), outseq, sentAll(r.output), lastEnq(r)
 //@ ensures relayWF(r) && quiescent(r)
@@ -247,14 +247,14 @@ package h2
 //@ ensures err == nil ==> forall i int :: 1 <= i && i < len(lastEnq(r).(*queuedPushPromiseFrame).chunks) ==> len(lastEnq(r).(*queuedPushPromiseFrame).chunks[i]) <= r.maxFrameSize
 
 //@ func (*relay).priority
-//@ property C10
+//@ property C10 C12
 //@ requires r != nil && relayWF(r) && quiescent(r)
 //@ modifies r.outputBuffers[*], outputBuffer.windowSize, r.connectionWindowSize, qlo, qhi, qelem, nsent(r.output), outseq, sentAll(r.output), lastEnq(r)
 //@ ensures relayWF(r) && quiescent(r)
 //@ ensures lastEnq(r) is *queuedPriorityFrame && lastEnq(r).(*queuedPriorityFrame).streamID == id && lastEnq(r).(*queuedPriorityFrame).priority == priority
 
 //@ func (*relay).rstStream
-//@ property C10
+//@ property C10 C12
 //@ requires r != nil && relayWF(r) && quiescent(r)
 //@ modifies r.outputBuffers[*], outputBuffer.windowSize, r.connectionWindowSize, qlo, qhi, qelem, nsent(r.output), outseq, sentAll(r.output), lastEnq(r)
 //@ ensures relayWF(r) && quiescent(r)
@@ -264,7 +264,7 @@ package h2
 // padding included) is credited back to the sender on the stream and on the
 // connection.
 //@ func (*relay).sendWindowUpdates
-//@ property C09
+//@ property C09 C12
 //@ requires r != nil && f != nil && r.dest != nil && f.StreamID != 0
 //@ modifies wu(r.dest, 0), wu(r.dest, f.StreamID)
 //@ ensures err == nil ==> wu(r.dest, 0) == old(wu(r.dest, 0)) + f.Length && wu(r.dest, f.StreamID) == old(wu(r.dest, f.StreamID)) + f.Length
@@ -279,7 +279,7 @@ package h2
 // that starts with the preface is accepted however it is segmented, unless
 // the transport itself fails.
 //@ func forwardPreface
-//@ property C10
+//@ property C10 C12
 //@ requires server != nil && client != nil && !rdFailed(client) && !wrFailed(server)
 //@ modifies pos(client), rdFailed(client), wlen(server), wdata, wrFailed(server), elems(byte)
 //@ ensures result == nil ==> pos(client) == old(pos(client)) + 24 && isPreface(stream(client), old(pos(client)))
@@ -300,13 +300,13 @@ package h2
 //@ pred relayInv(r *relay) = relayWF(r) && relayInj(r) && quiescent(r) && frameSizeOK(r)
 
 //@ func (*headerContinuation).complete
-//@ property C10
+//@ property C10 C12
 //@ requires h != nil && s != nil
 //@ modifies **
 //@ ensures pHdrN(s) == old(pHdrN(s)) + 1 && pHdrEnd(s) == old(h.endStream) && pHdrPrio(s) == old(h.priority) && pHdrList(s) == headers
 
 //@ func (*pushPromiseContinuation).complete
-//@ property C10
+//@ property C10 C12
 //@ requires p != nil && s != nil
 //@ modifies **
 //@ ensures pPushN(s) == old(pPushN(s)) + 1 && pPushID(s) == old(p.promiseID) && pPushList(s) == headers
@@ -319,12 +319,12 @@ package h2
 //@ modifies pkg(hpack), relay.initialWindowSize, relay.maxFrameSize, relay.connectionWindowSize, outputBuffer.windowSize, elems(http2.Setting), cells([]http2.Setting), qlo, nsent, outseq, sentAll
 
 //@ func (*relay).decodeFull
-//@ property C10
+//@ property C10 C12
 //@ requires r != nil && r.decoder != nil
 //@ modifies pkg(hpack), pkg(bytes), elems(byte), elems(hpack.HeaderField)
 
 //@ func (*relay).updateTableSize
-//@ property C10
+//@ property C10 C12
 //@ requires r != nil && r.decoder != nil && r.encoder != nil
 //@ modifies pkg(hpack)
 
@@ -336,7 +336,7 @@ package h2
 // write it results in, with which arguments. (Frames come from the Framer:
 // the interface never holds a nil frame pointer.)
 //@ func (*relay).processFrame
-//@ property C09 C10
+//@ property C09 C10 C12
 //@ requires r != nil && f != nil && nonnilptr(f) && r.peer != nil && r.dest != nil && r.peer.dest != nil && r.decoder != nil && r.peer.decoder != nil && r.peer.encoder != nil && relayInv(r.peer)
 //@ requires f is *http2.DataFrame ==> f.(*http2.DataFrame).StreamID != 0
 //@ requires f is *http2.ContinuationFrame ==> r.continuationState != nil
@@ -350,7 +350,7 @@ package h2
 // ---- what a queued frame puts on the wire (C10) ----
 
 //@ func (*queuedDataFrame).send
-//@ property C10
+//@ property C10 C12
 //@ requires f != nil && dest != nil
 //@ modifies fwN(dest), fwKind, fwA, fwB, fwC
 //@ ensures result == nil ==> fwN(dest) == old(fwN(dest)) + 1 && fwKind(dest, old(fwN(dest))) == 0 && fwA(dest, old(fwN(dest))) == f.streamID && (fwB(dest, old(fwN(dest))) == 1) == f.endStream && fwC(dest, old(fwN(dest))) == len(f.data)
@@ -358,7 +358,7 @@ package h2
 // HEADERS first with the frame's END_STREAM, END_HEADERS only if it is the
 // only chunk; then one CONTINUATION per further chunk, END_HEADERS on the last.
 //@ func (*queuedHeaderFrame).send
-//@ property C10
+//@ property C10 C12
 //@ requires f != nil && dest != nil && len(f.chunks) >= 1
 //@ modifies fwN(dest), fwKind, fwA, fwB, fwC, pkg(fmt)
 //@ ensures result == nil ==> fwN(dest) == old(fwN(dest)) + len(f.chunks)
@@ -371,7 +371,7 @@ package h2
 //@   decreases len(f.chunks) - i
 
 //@ func (*queuedRSTStreamFrame).send
-//@ property C10
+//@ property C10 C12
 //@ requires f != nil && dest != nil
 //@ modifies fwN(dest), fwKind, fwA, fwB, pkg(fmt)
 //@ ensures result == nil ==> fwN(dest) == old(fwN(dest)) + 1 && fwKind(dest, old(fwN(dest))) == 3 && fwA(dest, old(fwN(dest))) == f.streamID && fwB(dest, old(fwN(dest))) == f.errCode
@@ -379,12 +379,12 @@ package h2
 // ---- the default sink of a stream: straight into the opposite relay ----
 
 //@ func (*relayAdapter).Data
-//@ property C09 C10
+//@ property C09 C10 C12
 //@ requires r != nil && r.relay != nil && relayInv(r.relay) && len(data) < 4294967296
 //@ modifies **
 
 //@ func (*relayAdapter).Header
-//@ property C10
+//@ property C10 C12
 //@ requires r != nil && r.relay != nil && relayInv(r.relay) && r.relay.encoder != nil && r.relay.enableDebugLogs != nil
 //@ modifies **
 //@ ensures result == nil ==> lastEnq(r.relay) is *queuedHeaderFrame && lastEnq(r.relay).(*queuedHeaderFrame).endStream == streamEnded && lastEnq(r.relay).(*queuedHeaderFrame).streamID == old(r.id)
